@@ -91,7 +91,41 @@ impl<'a> Node<'a> {
     }
 }
 
+thread_local! {
+    /// remaining node-steps of the naive reference evaluator for the current evaluation
+    static BUDGET: std::cell::Cell<i64> = std::cell::Cell::new(i64::MAX);
+    static GAVE_UP: std::cell::Cell<bool> = std::cell::Cell::new(false);
+}
+
+/// node-steps one top-level evaluation may take before it is abandoned (the result is then empty and
+/// `take_gave_up()` is true: the caller must discard the case)
+pub const EVAL_BUDGET: i64 = 400_000;
+
+/// fresh budget, flag cleared (start of every generated case)
+pub fn reset() {
+    BUDGET.with(|b| b.set(EVAL_BUDGET));
+    GAVE_UP.with(|g| g.set(false));
+}
+
+pub fn take_gave_up() -> bool {
+    GAVE_UP.with(|g| g.replace(false))
+}
+
+fn spend(n: usize) -> bool {
+    BUDGET.with(|b| {
+        let left = b.get() - n as i64 - 1;
+        b.set(left);
+        if left < 0 {
+            GAVE_UP.with(|g| g.set(true));
+            false
+        } else {
+            true
+        }
+    })
+}
+
 pub fn eval<'a>(q: &Query, root: &'a J, k: &Quirks) -> Vec<Node<'a>> {
+    BUDGET.with(|b| b.set(EVAL_BUDGET));
     let start = Node {
         steps: vec![],
         v: root,
@@ -143,6 +177,9 @@ fn child<'a>(n: &Node<'a>, step: Step, via: Option<String>, v: &'a J) -> Node<'a
 }
 
 fn descendants_or_self<'a>(n: &Node<'a>, out: &mut Vec<Node<'a>>) {
+    if !spend(1) {
+        return;
+    }
     out.push(n.clone());
     for c in children(n) {
         descendants_or_self(&c, out);
@@ -150,6 +187,9 @@ fn descendants_or_self<'a>(n: &Node<'a>, out: &mut Vec<Node<'a>>) {
 }
 
 fn apply_seg<'a>(s: &Seg, input: Vec<Node<'a>>, root: &'a J, k: &Quirks) -> Vec<Node<'a>> {
+    if !spend(input.len()) {
+        return vec![];
+    }
     let input = if s.desc {
         let mut v = vec![];
         for n in &input {
@@ -313,6 +353,9 @@ fn apply_sel<'a>(sel: &Sel, dot: bool, n: &Node<'a>, root: &'a J, k: &Quirks, ou
         }
         Sel::Filter(e) => {
             for c in children(n) {
+                if !spend(1) {
+                    return;
+                }
                 if truth(e, &c, root, k) {
                     out.push(c);
                 }
